@@ -9,6 +9,7 @@ package main
 import (
 	"archive/zip"
 	"bytes"
+	"context"
 	"encoding/json"
 	"fmt"
 	"io"
@@ -115,6 +116,18 @@ func get(h http.Handler, url string) (r response, pan any) {
 	defer func() { pan = recover() }()
 	rec := httptest.NewRecorder()
 	req := httptest.NewRequest("GET", url, nil)
+	h.ServeHTTP(rec, req)
+	return response{rec.Code, rec.Body.Bytes()}, nil
+}
+
+// getGone: the same request from a client that has gone away already (its
+// context is cancelled before the handler is called).
+func getGone(h http.Handler, url string) (r response, pan any) {
+	defer func() { pan = recover() }()
+	rec := httptest.NewRecorder()
+	ctx, cancel := context.WithCancel(context.Background())
+	cancel()
+	req := httptest.NewRequest("GET", url, nil).WithContext(ctx)
 	h.ServeHTTP(rec, req)
 	return response{rec.Code, rec.Body.Bytes()}, nil
 }
@@ -415,9 +428,24 @@ type creq struct {
 	Path string `json:"path"`
 	Vers string `json:"version"`
 	Ext  string `json:"ext"`
+	// Gone: the client of this request has gone away (cancelled context); what
+	// it is answered does not matter, what the others are answered does
+	Gone bool `json:"client_gone,omitempty"`
 }
 
-func (c creq) String() string { return reqURL(c.Path, c.Vers, c.Ext) }
+func (c creq) String() string {
+	if c.Gone {
+		return reqURL(c.Path, c.Vers, c.Ext) + " (client gone)"
+	}
+	return reqURL(c.Path, c.Vers, c.Ext)
+}
+
+func (c creq) do(h http.Handler) (response, any) {
+	if c.Gone {
+		return getGone(h, reqURL(c.Path, c.Vers, c.Ext))
+	}
+	return get(h, reqURL(c.Path, c.Vers, c.Ext))
+}
 
 type scenario struct {
 	Name  string `json:"name"`
@@ -456,7 +484,7 @@ func (in *instance) body() {
 		wg.Add(1)
 		sched.Go(fmt.Sprintf("R%d", i+1), func() {
 			defer wg.Done()
-			in.resp[i], in.pan[i] = get(h, rq.String())
+			in.resp[i], in.pan[i] = rq.do(h)
 		})
 	}
 	if !sched.Active() {
@@ -476,6 +504,9 @@ func (in *instance) judge(e *sched.Exec) (string, string) {
 	for i, rq := range in.sc.Reqs {
 		if in.pan[i] != nil {
 			return "handler-panic", fmt.Sprintf("GET %s panics under concurrency: %v", rq, in.pan[i])
+		}
+		if rq.Gone {
+			continue
 		}
 		if in.resp[i].Status != in.solo[i].Status || !bytes.Equal(in.resp[i].Body, in.solo[i].Body) {
 			return "response-differs", fmt.Sprintf("GET %s answered %d (%d bytes) under concurrency, %d (%d bytes) when issued alone", rq, in.resp[i].Status, len(in.resp[i].Body), in.solo[i].Status, len(in.solo[i].Body))
@@ -502,7 +533,7 @@ func soloResponsesV(dir string, sc scenario) ([]response, string) {
 		if err != nil || srv == nil {
 			return nil, fmt.Sprintf("server does not start: %v", err)
 		}
-		r, pan := get(srv.HandlerVerif(), rq.String())
+		r, pan := rq.do(srv.HandlerVerif())
 		if pan != nil {
 			return nil, fmt.Sprintf("GET %s panics: %v", rq, pan)
 		}
@@ -571,19 +602,23 @@ func concScenarios(th bool) []scenario {
 	if th {
 		b2, b3 = 7, 4
 	}
-	m1 := func(ext string) creq { return creq{"a.com/m", "v1.0.0", ext} }
-	m2 := func(ext string) creq { return creq{"a.com/m", "v1.1.0", ext} }
-	n := func(ext string) creq { return creq{"a.com/n", "v1.0.0", ext} }
+	m1 := func(ext string) creq { return creq{Path: "a.com/m", Vers: "v1.0.0", Ext: ext} }
+	m2 := func(ext string) creq { return creq{Path: "a.com/m", Vers: "v1.1.0", Ext: ext} }
+	n := func(ext string) creq { return creq{Path: "a.com/n", Vers: "v1.0.0", Ext: ext} }
+	gone := func(c creq) creq { c.Gone = true; return c }
 	return []scenario{
 		{"zip||zip same module", []creq{m1("zip"), m1("zip")}, b2},
 		{"zip||info same module", []creq{m1("zip"), m1("info")}, b2},
 		{"info||mod same module (dir layout)", []creq{m2("info"), m2("mod")}, b2},
 		{"zip||zip different modules", []creq{m1("zip"), n("zip")}, b2},
-		{"zip||list", []creq{m1("zip"), creq{"a.com/m", "", "list"}}, b2},
+		{"zip||list", []creq{m1("zip"), creq{Path: "a.com/m", Ext: "list"}}, b2},
 		{"info||mod||zip same module", []creq{m1("info"), m1("mod"), m1("zip")}, b3},
 		{"zip||zip||zip same module", []creq{m2("zip"), m2("zip"), m2("zip")}, b3},
 		{"zip||zip||info two modules", []creq{m1("zip"), n("zip"), n("info")}, b3},
-		{"missing||zip", []creq{creq{"a.com/m", "v9.9.9", "zip"}, m1("zip")}, b2},
+		{"missing||zip", []creq{creq{Path: "a.com/m", Vers: "v9.9.9", Ext: "zip"}, m1("zip")}, b2},
+		{"zip (client gone)||zip same module", []creq{gone(m1("zip")), m1("zip")}, b2},
+		{"zip (client gone)||zip||info (dir layout)", []creq{gone(m2("zip")), m2("zip"), m2("info")}, b3},
+		{"info (client gone)||zip||mod same module", []creq{gone(n("info")), n("zip"), n("mod")}, b3},
 	}
 }
 
